@@ -13,6 +13,11 @@ git -C /repo worktree remove --force $WT >/dev/null 2>&1; rm -rf $WT
 git -C /repo worktree add --detach $WT HEAD >/dev/null 2>&1
 cd $WT
 APPLY=ok; git apply --check $DST/patch.diff 2>/dev/null || APPLY=fail
+if [ $APPLY = fail ] && patch -p1 --dry-run -F3 < $DST/patch.diff >/dev/null 2>&1; then
+  # the tree has moved (later repairs shifted or touched the context): re-base the stored patch
+  patch -p1 -F3 -s < $DST/patch.diff && find . -name "*.orig" -delete && git diff > $DST/patch.rebased \
+    && git checkout -- . && mv $DST/patch.rebased $DST/patch.diff && APPLY=ok && REBASED=yes
+fi
 SUITE=skipped; DEMO_WITH=skipped; DEMO_WITHOUT=skipped
 if [ $APPLY = ok ]; then
   export CARGO_NET_OFFLINE=true CARGO_TARGET_DIR=/var/tmp/seed-target
@@ -48,7 +53,7 @@ if [ $APPLY = ok ]; then
 fi
 python3 - <<PY
 import json,os
-d={"name":"$NAME","property":"$PID","patch_applies_to_repo_head":"$APPLY",
+d={"name":"$NAME","property":"$PID","patch_applies_to_repo_head":"$APPLY","rebased":"${REBASED:-no}",
    "suite_with_patch":"$SUITE","demo_without_patch":"$DEMO_WITHOUT","demo_with_patch":"$DEMO_WITH",
    "checks":json.loads("[" + """$RES""".rstrip(",") + "]")}
 try: d["agent_meta"]=json.load(open("$DST/meta_agent.json"))
